@@ -101,6 +101,7 @@ struct lib {
 	ArEntry		arent;
 	BPack(Bool)	rdOnly;
 	BPack(Bool)	intLoaded;	/* Already loaded by interpreter? */
+	BPack(Bool)	isOutput;	/* Opened by libWrite: a failed write/close must be reported. */
 	String		idName;		/* Name of initialiser */
 	FILE *		file;
 	Offset		offset;		/* Offset of hdr in file. */
